@@ -89,8 +89,7 @@ theorem signatures_all_in_ast :
 
 /-- every registered signature is `flat` or is a higher-order signature whose only non-simple arguments are typed
 function tests with simple arguments (fn:for-each, fn:filter, fn:fold-left, array:sort …).  With the split by nesting
-depth (`string_split_eq_ast`) the string-driven code reads both kinds as the grammar does; before fix-c18-6 only the
-flat ones (`string_split_old_agrees_iff_simple`). -/
+depth (`string_split_eq_ast`) the string-driven code reads both kinds as the grammar does. -/
 theorem signatures_flat_or_hof :
     signatures.all (fun s => s.2.flat || s.2.hof1) = true ∧
     10 ≤ (signatures.filter (fun s => !s.2.flat)).length := by decide +kernel
@@ -251,7 +250,7 @@ theorem f18v_phantom_signatures_registered :
 `1 instance of (xs:integer)` is true (the parentheses do not change the type); `($g, $g) instance of
 (function(xs:int) as xs:int)*` is true, `() instance of (…)*` is true — so a parameter declared `(function(xs:int) as
 xs:int)*` accepts the empty sequence — `($g, $g) instance of (…)?` is false; whereas the text `function(xs:int) as
-xs:int*` that the declaration was read as (before fix-c18-6) rejects the empty sequence. -/
+xs:int*` that the declaration was read as (before the `fix:` d94e193) rejects the empty sequence. -/
 theorem f18w_witness :
     let a : Tys := .cons (tyAtom .int .one) .nil
     let r : Ty := tyAtom .int .one
